@@ -106,11 +106,13 @@ def classify(res, fns, unit_name='unit'):
             continue
         f['fn'] = f'{cand["mod"]}::{cand["name"]}' + ('' if cand['variant'] in ('main',) else f'#{cand["variant"]}' + (f':{cand["probe"]}' if cand.get('probe') else ''))
         lab = None
+        labs = []
         if 'postcondition' in f['message']:
             for (a, b, prim, _) in f['spans']:
                 for L in cand['labels']:
                     if L['span'][0] <= a < L['span'][1]:
                         lab = L['label']
+                        labs.append(L['label'])
             f['where'] = 'ensures'
         else:
             for (a, b, prim, _) in f['spans']:
@@ -121,6 +123,7 @@ def classify(res, fns, unit_name='unit'):
                         lab = L['label']
             f['where'] = 'body'
         f['label'] = lab
+        f['labels'] = labs or ([lab] if lab else [])
     return out
 
 
